@@ -42,8 +42,10 @@ ASSUMPTIONS = [
     "DataWrapper compares by object identity (documented in its docstring); the model gives it the "
     "attribute `#id` = object number, so an unpickled or re-created wrapper is a different leaf",
     "loopy translation units are opaque: identified by loopy's own persistent key",
-    "rows whose change the public API forbids (NamedCallResult.tags/.axes: `tagged`/`with_tagged_axis` "
-    "raise) are probed but excluded from the obligations (`PtGen.internalRows`)",
+    "rows whose change the public API cannot produce (NamedCallResult.tags/.axes: `tagged`/`with_tagged_axis` "
+    "raise; CSRMatmul.matrix.shape/.matrix.dtype/.reduction_var: derived/fixed by make_csr_matrix and `@`, "
+    "see extract/eqtable.public_attempts) are probed and reported but excluded from the obligations "
+    "(`PtGen.internalRows`)",
     "a semantic field ignored by `==` while `hash` sees it is reported once, as eq-ignores (the hash is "
     "right to differ); hash-finer-than-eq is reported for rows where `==` is right",
 ]
@@ -125,7 +127,7 @@ def table_violations(ctx, t):
     return n
 
 
-def judge(ctx, c: eqcases.Case) -> bool:
+def judge(ctx, c: eqcases.Case, internal: set = frozenset()) -> bool:
     """compare the real observations of one pair with the Lean answers; returns
     True when the pair disagrees with the model or the specification"""
     r, m = c.real, c.model
@@ -137,6 +139,13 @@ def judge(ctx, c: eqcases.Case) -> bool:
         ctx.violation(f"eq-raises:{K or c.batch}", f"comparing/hashing raised on a {c.batch} pair: {r}", c.replay())
         return True
     model_eq, sem_eq, model_hash = m["eq"]["struct"], m["sem"]["semeq"], m["hash"]["enc"]
+    if r["eq"] != sem_eq and c.row in internal:
+        # a change the public API cannot produce (probed, reported as a distribution fact);
+        # the extracted table must still describe what the code does
+        if r["eq"] != model_eq:
+            bad = True
+            ctx.broken.append(f"correspondence:eqtable-vs-real:{c.batch}:{K}")
+        return bad
     if r["eq"] != sem_eq:
         bad = True
         if c.row is not None:
@@ -196,7 +205,7 @@ def correspondence(ctx, t, seed: int, n_graphs: int, n_mut: int):
             cases.append(c)
             per_graph.setdefault(gi, []).append(c)
     # pickled state must not carry the hash cache of any node
-    n_pick = 0
+    n_pick = n_cached = 0
     foreign: Counter = Counter()
     for gi, raw in pickles.items():
         n_pick += 1
@@ -214,8 +223,11 @@ def correspondence(ctx, t, seed: int, n_graphs: int, n_mut: int):
             kk = next((eqterm.kind_of(n) for n in eqterm.all_nodes(e)
                        if b"_hash_value" in pickle.dumps(n)), eqterm.kind_of(e))
             foreign[kk] += 1
-        if not cached_before:
-            ctx.broken.append("harness:hash-cache-not-filled-before-pickling")
+        n_cached += bool(cached_before)
+    if n_pick and not n_cached:
+        # the scenario under test (hash first, pickle afterwards) did not occur at all
+        ctx.broken.append("harness:hash-cache-not-filled-before-pickling")
+    ctx.coverage["graphs_pickled_with_filled_hash_cache"] = n_cached
     ctx.coverage["foreign_objects_pickling_a_hash_cache_inside"] = dict(foreign)
     eqcases.run_lean(ctx, cases, t)
     dis: Counter = Counter()
@@ -228,7 +240,7 @@ def correspondence(ctx, t, seed: int, n_graphs: int, n_mut: int):
         sizes.append(c.nodes)
         if c.row:
             rows_seen[f"{c.row[0]}.{c.row[1]}"] += 1
-        if judge(ctx, c):
+        if judge(ctx, c, set(t.internal)):
             dis[c.batch] += 1
     for b in tot:
         ctx.note_batch(f"pairs:{b}", tot[b], dis[b], exhaustive=False)
